@@ -149,6 +149,19 @@ inline bool lifecycle_S(Rng& r, uint64_t idx)
     for (auto& i : lw.incs) if (i.name == n && !i.removal_completed) return true;
     return false;
   };
+  // log calls parked inside a full blocking queue are still IN FLIGHT: removing their logger now would be the
+  // application's error (use after remove_logger), so such incarnations are not removed until the call has returned
+  std::map<SW*, size_t> inflight_log;
+  auto inflight_on = [&](size_t inc_idx)
+  {
+    for (auto it = inflight_log.begin(); it != inflight_log.end();)
+    {
+      if (!it->first->w->parked()) it = inflight_log.erase(it);
+      else ++it;
+    }
+    for (auto const& kv : inflight_log) if (kv.second == inc_idx) return true;
+    return false;
+  };
   auto do_log = [&](SW& s, size_t inc_idx)
   {
     SW* sp = &s;
@@ -157,12 +170,13 @@ inline bool lifecycle_S(Rng& r, uint64_t idx)
     // a blocking queue may park the call: it completes later (always accepted), long after this frame is gone, so the
     // result lives on the heap
     auto rp = std::make_shared<int>(1);
-    run.run_on(s, [lp, inc_idx, sp, seq, len, rp]
-               {
-                 std::vector<Issue> tmp;
-                 *rp = issue_std(tmp, lp->incs[inc_idx].lg, 0, quill::LogLevel::Info, sp->tid, seq, len).res;
-               },
-               "log");
+    bool const completed = run.run_on(s, [lp, inc_idx, sp, seq, len, rp]
+                                      {
+                                        std::vector<Issue> tmp;
+                                        *rp = issue_std(tmp, lp->incs[inc_idx].lg, 0, quill::LogLevel::Info, sp->tid, seq, len).res;
+                                      },
+                                      "log");
+    if (!completed) inflight_log[&s] = inc_idx;
     if (*rp == 1) lw.incs[inc_idx].issued.emplace_back(s.tid, seq); // a dropping queue may have refused it
   };
   uint32_t inject_budget = 60;
@@ -242,6 +256,7 @@ inline bool lifecycle_S(Rng& r, uint64_t idx)
     }
     size_t ii = al[r.below(al.size())];
     if (x < 80) { do_log(s, ii); continue; }
+    if (x < 94 && inflight_on(ii)) { run.poll(); continue; }
     if (x < 86)
     {
       // non-blocking removal: nobody logs through it afterwards; the name is not reused
